@@ -2,6 +2,7 @@
 import hashlib
 import json
 import os
+import re
 import shutil
 import struct
 import subprocess
@@ -485,12 +486,116 @@ def model_args(c, pki, sig_data, sig_csf, dek):
 def unrle(v):
     out = bytearray()
     for t, x in v[1]:
-        out += bytes(x) if t == "i" else x[1][1].to_bytes(x[0][1], "big")
+        out += bytes(x) if t == "i" else x
     return bytes(out)
 
 
 def model_expr(fn, args):
-    return f"run_case {fn} [{'; '.join('(' + vlib.coq_lit(a) + ')' for a in args)}]"
+    return f"run_case_h {fn} [{'; '.join('(' + vlib.coq_lit(a) + ')' for a in args)}]"
+
+
+_HTOK = re.compile(r"\s*(\[|\]|\(|\)|;|-?\d+(?:%[A-Za-z]+)?|[A-Za-z_][\w.]*)")
+
+
+def parse_hvals(text):
+    """Parse the terms printed by `Eval vm_compute in (e : hval).` into vlib's value tuples."""
+    out = []
+    for m in re.finditer(r"(?s)=\s*(.*?)\s*:\s*hval\b", text):
+        toks = _HTOK.findall(m.group(1))
+        pos = [0]
+
+        def nxt():
+            pos[0] += 1
+            return toks[pos[0] - 1]
+
+        def num():
+            t = nxt()
+            if t == "(":
+                t = nxt()
+                assert nxt() == ")"
+            if pos[0] < len(toks) and toks[pos[0]].startswith("%"):
+                nxt()
+            return int(t.split("%")[0])
+
+        def lst(item):
+            assert nxt() == "["
+            res = []
+            if toks[pos[0]] == "]":
+                nxt()
+                return res
+            while True:
+                res.append(item())
+                t = nxt()
+                if t == "]":
+                    return res
+                assert t == ";", t
+
+        def val():
+            t = nxt()
+            if t == "(":
+                v = val()
+                assert nxt() == ")"
+                return v
+            if t == "HInt":
+                return ("i", num())
+            if t == "HErr":
+                return ("e", num())
+            if t == "HHex":
+                d = lst(lambda: int(nxt()[1], 16))
+                return ("b", bytes(d[i] * 16 + d[i + 1] for i in range(0, len(d), 2)))
+            if t == "HList":
+                return ("l", lst(val))
+            raise ValueError("unexpected token " + t)
+
+        out.append(val())
+    return out
+
+
+def run_model(tag, exprs, shard=12, timeout=1200, jobs=8):
+    """Same protocol as vlib.run_model_cases, for expressions of type HabModel.hval (see the note on printing in the model)."""
+    d = os.path.join(vlib.COQ, "Cases")
+    os.makedirs(d, exist_ok=True)
+    shards = [exprs[i:i + shard] for i in range(0, len(exprs), shard)]
+    names = [f"{tag}_{k}" for k in range(len(shards))]
+    for n, sh_ in zip(names, shards):
+        with open(os.path.join(d, n + ".v"), "w") as f:
+            f.write("From Coq Require Import ZArith NArith List.\nRequire Import Value HabModel.\nImport ListNotations.\n"
+                    "Set Printing Width 2000000000.\nSet Printing Depth 2000000000.\n"
+                    + "".join(f"Eval vm_compute in ({e_}).\n" for e_ in sh_))
+    results, running, idx = [None] * len(names), {}, 0
+    try:
+        while idx < len(names) or running:
+            while idx < len(names) and len(running) < jobs:
+                n = names[idx]
+                running[idx] = subprocess.Popen(
+                    f"ulimit -s unlimited 2>/dev/null; timeout {timeout} coqc -R . V -w -all Cases/{n}.v > Cases/{n}.out 2>&1",
+                    shell=True, cwd=vlib.COQ)
+                idx += 1
+            done = [i for i, p in running.items() if p.poll() is not None]
+            if not done:
+                time.sleep(0.05)
+                continue
+            for i in done:
+                p = running.pop(i)
+                out = open(os.path.join(d, names[i] + ".out")).read()
+                if p.returncode != 0:
+                    raise RuntimeError(f"model evaluation failed ({names[i]}): {out[-2000:]}")
+                results[i] = parse_hvals(out)
+    finally:
+        for p in running.values():
+            p.kill()
+        for n in names:
+            for ext in (".v", ".out", ".vo", ".vok", ".vos", ".glob"):
+                try:
+                    os.remove(os.path.join(d, n + ext))
+                except FileNotFoundError:
+                    pass
+    flat = []
+    for r, sh_ in zip(results, shards):
+        if len(r) != len(sh_):
+            raise RuntimeError("model returned wrong number of results")
+        flat += r
+    return flat
 
 
 # ------------------------------------------------------------------------------------------------ oracles (what the property demands)
@@ -868,7 +973,7 @@ def _run(rep, rng, tier):
     if model_ok:
         try:
             t_model = time.time()
-            mres = vlib.run_model_cases("c07", "Value HabModel", exprs, shard=12, timeout=1200, jobs=8)
+            mres = run_model("c07", exprs, shard=12, timeout=1200, jobs=8)
             vlib.log(f"  model: {len(exprs)} evaluations in {time.time() - t_model:.0f} s")
             pairs = []
             for (cid, fn), mv in zip(expr_owner, mres):
